@@ -16,18 +16,17 @@ def _forwarding(check, prop: str, mod):
   """R-FORWARD over the property's anchor files and every function its own rules analysed."""
   from fjsa.rules import forward
   repo = check.repo
-  check.rule('R-FORWARD', 'in the files anchoring this property (and the functions analysed above): every parameter is read or explicitly '
-             'discarded with `del`; a function holding parameter p passes it to every repository callee that also takes p (frozen '
-             'exceptions with reasons in rules/forward.py); **kwargs forwarded with ** are not filtered on the way')
-  funcs = forward.anchor_functions(repo, prop, getattr(mod, 'EXTRA_FORWARD_FILES', ()))
-  by_key = {f'{f.module.relpath}:{f.qualname}': f for m in repo.modules.values() for f in m.functions()}
-  for k in sorted(check.functions_analysed):
-    if k in by_key:
-      funcs.append(by_key[k])
+  check.rule('R-FORWARD', 'for the functions that carry this property\'s configuration (table SCOPES in rules/forward.py): every parameter is '
+             'read or explicitly discarded with `del`; a function holding parameter p passes it to every repository callee that also takes p '
+             '(frozen exceptions with reasons); optional numbers are not tested by truthiness; same-named arguments are not swapped; **kwargs '
+             'forwarded with ** are not filtered on the way')
+  funcs = forward.scoped_functions(repo, prop)
   forward.check_forwarding(check, funcs)
 
 
 def run_property(prop: str, tier: str, repo_root: str, seed: int = 0):
+  from fjsa.flow import FuncFlow
+  FuncFlow._cache.clear()   # per-run cache: flows of an earlier repository copy must not accumulate (self-validation runs many)
   repo = Repo(repo_root)
   check = report.Check(prop, tier, repo, seed)
   mod = importlib.import_module(f'fjsa.props.{prop.lower()}')
